@@ -1,5 +1,56 @@
-"""Binding 2 of C10: real Tuner.run + SimulatorCallback + real schedulers on the tabular simulator back-end."""
+"""Binding 2 on the simulator: real Tuner.run + SimulatorCallback + real schedulers on the tabular simulator back-end.
+One run yields a SimBackend trace (C10, simulator half of C02) and a TunerLoop trace (C01, C12)."""
+from harness import tuner_models as M
+from harness.drivers import simbackend as SB
+from harness.drivers import simtuner as S
+from harness.drivers import tunerloop as TL
 
 
-def campaign(rep, tier, seed, validate_traces):
-    return {}
+def runs(tier, seed, criteria=None):
+    u = SB.UNIT
+    n = 6 if tier == "quick" else 60
+    out = []
+    for ki, kind in enumerate(S.KINDS):
+        for j in range(n):
+            s = seed * 7919 + ki * 131 + j
+            conf = {"tab": S.big_table(kind="nonmono" if j % 3 == 2 else "mono"), "dres": (j % 3) * u, "dfin": (j % 3 + j % 2) * u,
+                    "dstop": (1 + j % 2) * u * (j % 4 != 3), "dstart": (j % 2) * u, "dcstop": u * (j % 3 != 1),
+                    "sleep": (8 + 8 * (j % 3)) * u, "ckpt": j % 4 != 1, "mra": kind != "hb_promotion_nomra", "seed": 0}
+            nw = 1 + j % 4
+            crit = criteria[j % len(criteria)] if criteria else ({"max_num_trials_started": 8 + j % 4}, "started", 8 + j % 4, False)
+            if crit[1] != "started" and kind not in ("fifo", "hb_stopping"):
+                # pause-and-resume schedulers may keep every trial paused: a finished / completed budget need never hold
+                crit = [c for c in criteria if c[1] == "started"][j % 2]
+            sim_trace, tl_ev, tuner = S.run(kind, s, nw, conf, crit[0], tuner_conf={"async": j % 5 != 4, "wait": j % 6 == 5})
+            tlconf = {"nw": nw, "kind": "pause", "maxfail": 3, "ckind": crit[1], "k": crit[2], "also": crit[3], "sim": True,
+                      "async": j % 5 != 4, "wait": j % 6 == 5}
+            out.append((sim_trace, TL.to_trace({"conf": tlconf, "ev": tl_ev}, 0),
+                        {"scheduler": kind, "seed": s, "n_workers": nw, "criterion": crit[0]}))
+    return out
+
+
+def campaign(rep, tier, seed, validate_sim_traces):
+    """C10: the SimBackend traces of the simulated tuning runs."""
+    rs = runs(tier, seed)
+    traces, meta = [], []
+    for sim_trace, _, m in rs:
+        sim_trace["id"] = len(traces) + 1
+        traces.append(sim_trace)
+        meta.append(m)
+    return validate_sim_traces(rep, traces, meta, "tuner+SimulatorCallback")
+
+
+def campaign_tunerloop(rep, pid, tier, seed, criteria=None):
+    """C01 / C12: the TunerLoop traces of simulated tuning runs."""
+    from harness.props import tuner_common as T
+    rs = runs(tier, seed + 1, criteria)
+    traces, meta = [], []
+    for _, tl, m in rs:
+        tl["id"] = len(traces) + 1
+        traces.append(tl)
+        meta.append(m)
+    flags = set(M.PROP_FLAGS[pid]) - {"left_running"}
+    c = T.validate_traces(rep, traces, meta, pid, flags, "simulator-tuner")
+    rep.replays += len(traces)
+    rep.extra["simulator_tuner_flags"] = c
+    return c
